@@ -724,9 +724,11 @@ var _ rpc.Resources
 //@ define predPathKept(now []string, before []string) bool = len(now) == len(before) &&
 //@     (forall k int :: 0 <= k && k < len(before) ==> now[k] == before[k])
 
+// (verified: the frame, no panic, and that the error handed to RESError on the retry is a usable
+// one - json.Marshal never returns a *reserr.Error, library contract)
 //@ func jsonEncodeError
-//@   trusted
 //@   assigns nothing
+//@   safety[C15,C16]
 
 // (every reference value has its subscription: graph invariant, assumed)
 //@ func (*encoderJSON).encodeSubscription
